@@ -67,9 +67,49 @@ def run_pipeline(case, path):
 
     sc = case["score"]
     part = M.build_score_part(sc)
-    ppart = M.build_performed_part(case)
     al = M.alignment_dicts(case)
     opts = case.get("opts", {})
+    via = opts.get("via", "built")
+    extra_ops = 0
+    if via == "built":
+        ppart = M.build_performed_part(case)
+    else:
+        # the performed part comes out of a real loader (which stores the tick counts of its source in the notes):
+        # the plain part is first written with the source clock and read back
+        ppq_s, mpq_s = case["perf"]["src"][:2]
+        first = dict(case, perf=dict(case["perf"], decl=[ppq_s, mpq_s]))
+        plain = M.build_performed_part(first, plain=True)
+        if via == "match":
+            from partitura.io.importmatch import load_match
+
+            save_match(al, plain, part, out=path + ".a", mpq=mpq_s, ppq=ppq_s, assume_unfolded=True)
+            try:
+                ppart = load_match(path + ".a")[0][0]
+            finally:
+                os.remove(path + ".a")
+        elif via == "midi":
+            from partitura.io.exportmidi import save_performance_midi
+            from partitura.io.importmidi import load_performance_midi
+
+            # the MIDI leg only prepares the input (MIDI input/output is not the subject of C08): if it fails or
+            # does not hand back the described notes under the same ids, the case is reported as unusable
+            try:
+                save_performance_midi(plain, path + ".mid", mpq=mpq_s, ppq=ppq_s)
+                ppart = load_performance_midi(path + ".mid")[0]
+            except Exception:
+                return -1
+            finally:
+                if os.path.exists(path + ".mid"):
+                    os.remove(path + ".mid")
+            want = sorted((n[0], n[1], M.src_tick(n[2], ppq_s, mpq_s), M.src_tick(n[3], ppq_s, mpq_s), n[4])
+                          for n in case["perf"]["notes"])
+            got = sorted((n["id"], int(n["midi_pitch"]), n.get("note_on_tick"), n.get("note_off_tick"), int(n["velocity"]))
+                         for n in ppart.notes)
+            if want != got:
+                return -1
+        else:
+            raise ValueError(via)
+        extra_ops = 2
     unfolded = opts.get("unfolded", True)
     api = opts.get("api", "part")
     kw = dict(mpq=case["mpq"], ppq=case["ppq"])
@@ -85,6 +125,7 @@ def run_pipeline(case, path):
         mf.write(path)
     else:
         raise ValueError(api)
+    return extra_ops
 
 
 def q_of(part, t):
@@ -142,6 +183,8 @@ def eval_case(case):
         return eval_text_case(case)
     if case.get("kind") == "fixture":
         return eval_fixture(case)
+    if case.get("kind") == "reuse":
+        return eval_reuse(case)
     import warnings
 
     warnings.filterwarnings("ignore")
@@ -154,8 +197,11 @@ def eval_case(case):
     opts = case.get("opts", {})
     path = os.path.join(_tmpdir(), "c%d.match" % os.getpid())
     try:
-        ok, _ = guarded(res, "write-total", run_pipeline, case, path)
-        res.transitions += 1
+        ok, extra_ops = guarded(res, "write-total", run_pipeline, case, path)
+        res.transitions += 1 + abs(extra_ops or 0)
+        if ok and extra_ops == -1:
+            res.outcome = "midi-source-unusable"
+            return res
         if not ok:
             res.outcome = "write-exception"
             return res
@@ -382,6 +428,158 @@ def eval_case(case):
         res.outcome = "ok lines=%s bars=%d ts=%d ks=%d pedal=%d sfx=%r" % (
             "+".join("%s%d" % (k[0], v) for k, v in sorted(exp_kinds.items())), len(measures), len(tss), len(kss),
             len(pp.controls), sfx)
+    return res
+
+
+def eval_reuse(case):
+    """one written file, parsed once; a sequence of queries on the same MatchFile object, each compared with the saved
+    data computed from the case description"""
+    import warnings
+
+    warnings.filterwarnings("ignore")
+    from partitura.io.importmatch import (load_match, load_matchfile, performed_part_from_match, part_from_matchfile,
+                                          note_alignment_from_matchfile)
+
+    res = CaseResult(states=1, transitions=0, traces=1)
+    res.nontrivial = False
+    base = case["base"]
+    sc = base["score"]
+    ppq, mpq = base["ppq"], base["mpq"]
+    align = base["align"]
+    ops = case["ops"]
+    path = os.path.join(_tmpdir(), "r%d.match" % os.getpid())
+    path2 = path + ".w"
+    first = min(n[2] for n in base["perf"]["notes"])  # times of this space are integer ticks of the requested clock
+
+    def norm_type(t):
+        if t is None:
+            return None
+        return tuple(t) if isinstance(t, (list, tuple)) else (t,)
+
+    exp_al = Counter((lab, sid, None if pid is None else M.expected_pid(pid), norm_type(typ)) for lab, sid, pid, typ in align)
+
+    def check_alignment(al, op):
+        got = Counter((d.get("label"), d.get("score_id"), d.get("performance_id"), norm_type(d.get("type"))) for d in al)
+        if got != exp_al:
+            res.fail("alignment-equal", expected=sorted((exp_al - got).elements(), key=repr)[:6],
+                     observed=sorted((got - exp_al).elements(), key=repr)[:6], where="importmatch.note_alignment_from_matchfile",
+                     detail="missing vs unexpected entries after %s" % op)
+
+    def check_perf(pp, zero, op):
+        sh = first if zero else 0
+        if (pp.ppq, pp.mpq) != (ppq, mpq):
+            res.fail("performance-clock", expected=[ppq, mpq], observed=[pp.ppq, pp.mpq],
+                     where="importmatch.performed_part_from_match", detail="after %s" % op)
+        exp = {}
+        for nid, pitch, on, off, vel in base["perf"]["notes"]:
+            exp[M.expected_pid(nid)] = (pitch, on - sh, off - sh, vel)
+        got = {}
+        sec_bad = None
+        n_notes = 0
+        for n in pp.notes:
+            n_notes += 1
+            got[n["id"]] = (int(n["midi_pitch"]), n["note_on_tick"], n["note_off_tick"], int(n["velocity"]))
+            for kt, ks in (("note_on_tick", "note_on"), ("note_off_tick", "note_off")):
+                es = float(F(mpq * int(exp.get(n["id"], (0, n["note_on_tick"], n["note_off_tick"]))[1 if kt == "note_on_tick" else 2]),
+                             10 ** 6 * ppq))
+                if sec_bad is None and abs(float(n[ks]) - es) > 1e-9 * max(1.0, abs(es)):
+                    sec_bad = (n["id"], ks, es, float(n[ks]))
+        if got != exp or n_notes != len(exp):
+            res.fail("performance-note-equal" if sorted(got) == sorted(exp) and n_notes == len(exp) else "performance-notes-present",
+                     expected=sorted(exp.items()), observed=sorted(got.items()), where="importmatch.performed_part_from_match",
+                     detail="(pitch, onset tick, offset tick, velocity) per note after %s%s"
+                            % (op, " (times shifted by the earliest onset %d)" % first if zero else ""))
+        elif sec_bad:
+            res.fail("performance-note-equal", expected=sec_bad[2], observed=sec_bad[3], where="importmatch.performed_part_from_match",
+                     detail="%s of %s in seconds after %s" % (sec_bad[1], sec_bad[0], op))
+        if not zero:
+            # first_note_at_zero documents a shift of the note times only: pedal times are left open there
+            exp_c = Counter((num, t, v) for num, t, v in base["perf"].get("ctrl", []) if num in (64, 67))
+            got_c = Counter()
+            for c in pp.controls:
+                tk = float(c["time"]) * 10 ** 6 * ppq / mpq
+                got_c[(c["number"], int(round(tk)) if abs(tk - round(tk)) < 1e-6 else tk, c["value"])] += 1
+            if got_c != exp_c:
+                res.fail("performance-pedal-equal", expected=sorted(exp_c.elements()), observed=sorted(got_c.elements(), key=repr),
+                         where="importmatch.performed_part_from_match", detail="(number, tick, value) after %s" % op)
+
+    def check_score(part, op):
+        ok, obs = guarded(res, "score-observe", observe_part, part)
+        if not ok:
+            return
+        notes = obs[0]
+        D = sc["divs"]
+        written = {a[1] for a in align if a[0] in ("match", "deletion")}
+        ch = [(h, tot) for h, tot, _ in M.chains(sc) if h["id"] in written]
+        if sorted(notes) != sorted(h["id"] for h, _ in ch) or obs[1]:
+            res.fail("score-note-ids", expected=sorted(h["id"] for h, _ in ch), observed=sorted(notes) + ["dup:%s" % d for d in obs[1]],
+                     where="importmatch.part_from_matchfile", detail="after %s" % op)
+            return
+        s0 = min(h["s"] for h, _ in ch)
+        l0 = min(v["on"] for v in notes.values())
+        for h, tot in ch:
+            g = notes[h["id"]]
+            e = (F(h["s"] - s0, D), F(tot, D), h["step"], h.get("alter") or 0, h["oct"], h.get("voice"), h.get("staff"))
+            o = (g["on"] - l0, g["dur"], g["step"], g["alter"], g["oct"], g["voice"], g["staff"])
+            if e != o:
+                res.fail("score-note-time" if e[:2] != o[:2] else "score-note-spelling", expected=e, observed=o,
+                         where="importmatch.part_from_matchfile", detail="note %s after %s" % (h["id"], op))
+                break
+
+    try:
+        ok, _ = guarded(res, "write-total", run_pipeline, base, path)
+        res.transitions += 1
+        if not ok:
+            res.outcome = "write-exception"
+            return res
+        ok, mf = guarded(res, "load-total", load_matchfile, path)
+        res.transitions += 1
+        if not ok:
+            res.outcome = "load-exception"
+            return res
+        done = []
+        for op in ops:
+            done.append(op)
+            tag = ">".join(done)
+            res.transitions += 1
+            if op in ("P0", "P1"):
+                ok, pp = guarded(res, "load-total", performed_part_from_match, mf, 64, op == "P1")
+                if ok:
+                    check_perf(pp, op == "P1", tag)
+            elif op == "S":
+                ok, part = guarded(res, "load-total", part_from_matchfile, mf)
+                if ok:
+                    check_score(part, tag)
+            elif op == "A":
+                ok, al = guarded(res, "load-total", note_alignment_from_matchfile, mf)
+                if ok:
+                    check_alignment(al, tag)
+            elif op == "W":
+                ok, _ = guarded(res, "write-total", mf.write, path2)
+                if ok:
+                    ok, loaded = guarded(res, "load-total", load_match, path2)
+                    res.transitions += 1
+                    if ok:
+                        check_perf(loaded[0][0], False, tag)
+                        check_alignment(loaded[1], tag)
+            elif op in ("L0", "L1"):
+                ok, loaded = guarded(res, "load-total", load_match, path, first_note_at_zero=(op == "L1"))
+                if ok:
+                    check_perf(loaded[0][0], op == "L1", tag)
+                    check_alignment(loaded[1], tag)
+            else:
+                raise ValueError(op)
+            if not ok:
+                break
+    finally:
+        for pth in (path, path2):
+            if os.path.exists(pth):
+                os.remove(pth)
+    res.nontrivial = True
+    if res.violations:
+        res.outcome = "viol:" + ",".join(sorted({v["clause"] for v in res.violations}))
+    else:
+        res.outcome = "ok reuse first=%d ops=%s" % (first, "".join(o[0] for o in sorted(set(ops))))
     return res
 
 
@@ -1149,6 +1347,74 @@ def gen_clock(full, all_streams=False):
         yield mk_case(sc, align=align, perf=perf, ctrl=st, defaults=True)
 
 
+SRC_CLOCKS = [(480, 500000), (480, 250000), (480, 600000), (960, 500000), (384, 600000)]
+REQ_CLOCKS = [(480, 500000), (480, 250000), (480, 333333), (960, 500000), (384, 600000), None]  # None = exporter defaults
+RESAVE_TIMES = [[(0, 10), (5, 6), (12, 1000)], [(480, 960), (961, 1441), (1001, 1999)]]
+RESAVE_PEDALS = [[], [(64, 7, 127)], [(67, 0, 5), (64, 3, 100), (64, 961, 0)]]
+
+
+def gen_resave(full):
+    """performed parts whose notes carry tick counts (note_on_tick / note_off_tick), as parts read from a MIDI or a match
+    file do, saved with a requested clock that may differ from the clock the ticks were counted in.
+
+    source clock (ppq_s, mpq_s) in SRC_CLOCKS x requested clock in REQ_CLOCKS (incl. equal ppq with another mpq, both
+    equal, both different, exporter defaults) x 2 note-time sets on the source tick grid x 3 pedal streams x
+      built: hand-built part, tick fields {both, only note_on_tick} x declared clock of the PerformedPart {source clock,
+             480/500000 as load_performance_midi declares whatever the tempo of the file, the requested clock}
+      match: the part is what load_match returns for the plain part saved with the source clock
+      midi:  the part is what load_performance_midi returns for the plain part saved as MIDI with the source clock
+    The seconds are the reference: loaded ticks = saved seconds in the requested clock."""
+    m = (4, 4)
+    sc = mk_score([(m, m, None)], [(0, 4), (4, 8)])
+    align = [["match", "s0", "n0", None], ["match", "s1", "n2", None], ["insertion", None, "n1", None]]
+    src_clocks = SRC_CLOCKS + ([(1000, 1000000), (24, 250000)] if full else [])
+    for ppq_s, mpq_s in src_clocks:
+        def sec(t):
+            return ["s", "%d/%d" % (t * mpq_s, 10 ** 6 * ppq_s)]
+        for req in REQ_CLOCKS + ([(4000, 500000), (480, 1000000)] if full else []):
+            for ts in RESAVE_TIMES:
+                # ids in the order load_performance_midi numbers the notes (by onset)
+                perf = [["n%d" % i, 60 + i, sec(on), sec(off), 1 + 63 * i] for i, (on, off) in enumerate(ts)]
+                for ped in RESAVE_PEDALS:
+                    ctrl = [(num, sec(t), v) for num, t, v in ped]
+                    variants = [("built", f, d) for f in ("both", "on") for d in ("src", "midi", "req")]
+                    variants += [("match", "both", "src"), ("midi", "both", "midi")]
+                    for via, fields, decl in variants:
+                        kw = dict(defaults=True) if req is None else dict(ppq=req[0], mpq=req[1])
+                        c = mk_case(sc, align=align, perf=perf, ctrl=ctrl, via=via, **kw)
+                        c["perf"]["src"] = [ppq_s, mpq_s, fields]
+                        c["perf"]["decl"] = {"src": [ppq_s, mpq_s], "midi": [ppq_s, 500000], "req": [c["ppq"], c["mpq"]]}[decl]
+                        yield c
+
+
+REUSE_OPS = ["P0", "P1", "S", "A", "W"]
+
+
+def gen_reuse(full):
+    """one parsed MatchFile (load_matchfile of the written file) queried several times: every sequence of 1..3 (4 in the
+    thorough tier) operations over P0 = performed_part_from_match(mf), P1 = the same with first_note_at_zero=True,
+    S = part_from_matchfile(mf), A = note_alignment_from_matchfile(mf), W = mf.write + load_match of the rewritten
+    file; the result of EVERY operation is compared with the saved data (P1: all note times shifted by the earliest
+    onset); plus the single fresh loads L0/L1 = load_match(first_note_at_zero=False/True).
+    bases: earliest onset tick {0, 7, 960} x 2 clocks (3 thorough) x pedals {none, 3 events}; 3 score notes in 2 bars
+    (match, deletion, match) + an insertion + an ornament"""
+    m = (4, 4)
+    sc = mk_score([(m, m, (0, "major")), (m, None, None)], [(0, 4), (4, 8), (8, 16)])
+    seqs = [[o] for o in ("L0", "L1")]
+    for n in ((1, 2, 3, 4) if full else (1, 2, 3)):
+        seqs += [list(x) for x in itertools.product(REUSE_OPS, repeat=n)]
+    for f in (0, 7, 960):
+        for ppq, mpq in ([CLOCKS[0], CLOCKS[2], CLOCKS[3]] if full else [CLOCKS[0], CLOCKS[2]]):
+            for ped in ([], [(64, 3, 100), (67, f + 9, 10), (64, f + 400, 0)]):
+                perf = [["n0", 60, f + 20, f + 120, 50], ["n1", 67, f + 300, f + 420, 60], ["n2", 80, f, f + 60, 70],
+                        ["n3", 90, f + 500, f + 530, 80]]
+                align = [["match", "s0", "n0", None], ["deletion", "s1", None, None], ["match", "s2", "n1", None],
+                         ["insertion", None, "n2", None], ["ornament", "s2", "n3", "trill"]]
+                base = mk_case(sc, align=align, perf=perf, ctrl=ped, ppq=ppq, mpq=mpq)
+                for ops in seqs:
+                    yield dict(kind="reuse", base=base, ops=ops)
+
+
 def gen_options(full):
     """api (Part/PerformedPart, Score/Performance, returned MatchFile) x assume_unfolded x representative scores"""
     m = (6, 8)
@@ -1359,6 +1625,17 @@ def spaces(tier, seed):
                         "5 score notes: all {match,deletion}^5 with >=1 match x 0-1 extra performed note"))
     sp.append(Space("options", lambda: gen_options(thorough), True,
                     "3 call forms x assume_unfolded x 2 scores x 3 alignment variants"))
+    sp.append(Space("resave", lambda: gen_resave(thorough), True,
+                    "performed parts whose notes carry tick counts (note_on_tick/note_off_tick), saved with another clock: %d "
+                    "source clocks x %d requested clocks (same ppq other mpq, both equal, both different, exporter defaults) x 2 "
+                    "note-time sets x 3 pedal streams x {hand-built with both / only the onset tick field x declared clock "
+                    "source / (ppq_s, 500000) / requested; part returned by load_match; part returned by load_performance_midi}"
+                    % ((7, 8) if thorough else (5, 6))))
+    sp.append(Space("reuse", lambda: gen_reuse(thorough), True,
+                    "one parsed MatchFile queried repeatedly: every sequence of 1..%d operations over {performed part, "
+                    "performed part with first_note_at_zero, score part, alignment, write+reload}, every result compared with "
+                    "the saved data; fresh load_match with/without first_note_at_zero; bases: earliest onset tick {0,7,960} x "
+                    "%d clocks x pedals {none, 3 events}" % ((4, 3) if thorough else (3, 2))))
     b_dup = ("hand-written files (independent writer): every subset of <=4 of 11 note lines with shared ids, both orders, "
              "textual repetitions; dialects ")
     if thorough:
